@@ -667,7 +667,10 @@ impl Duration {
                 );
 
                 // c. Let roundRecord be ? RoundTimeDuration(duration.[[Days]], norm, roundingIncrement, smallestUnit, roundingMode).
-                let (round_record, _) = norm.round(self.days(), resolved_options)?;
+                // NOTE: the days are folded into the time duration as 24 hour days first, so that the
+                // rounding (and the parity that halfEven looks at) applies to the exact total.
+                let norm = norm.add_days(self.days().as_integer_if_integral()?)?;
+                let (round_record, _) = norm.round(FiniteF64::default(), resolved_options)?;
                 // d. Let normWithDays be ? Add24HourDaysToNormalizedTimeDuration(roundRecord.[[NormalizedDuration]].[[NormalizedTime]],
                 // roundRecord.[[NormalizedDuration]].[[Days]]).
                 let norm_with_days = round_record
